@@ -25,7 +25,7 @@ VALID = ["y", "x", "k", "I(x > 0)", "f", "g", "h", "u", "g[g1]", "g['g1']", 'h["
          "C(k)", "C(h)", "C(f)", "d['10']", 'd["2"]', "d[1]" if False else "d['1']", "prop(s, n)", "p(s, n)", "proportion(s, n)", "prop(s, 40)", "p(s, 40)", "prop(sb, 5)", "p(sb, 1)", "prop(s8, 200)", "proportion(s8, n)",
          "c1", "C(c1)", None]
 ONE_ROW = ["y", "np.abs(y)", "I(x > 0)", "f", "g", "g['g1']", "w['a b']", "prop(s, n)", "p(s, 40)", "prop(sb, 5)", "c1"]
-INVALID = ["y + x", "y:x", "y*x", "1", "0", "offset(y)", "y / x", "(y | g)", "2"]
+INVALID = ["y + x", "y:x", "y*x", "1", "0", "offset(y)", "y / x", "(y | g)", "2", "x[a]", "k['10']", "k[\"2\"]"]  # a level on a numeric variable
 
 
 @st.composite
